@@ -46,6 +46,8 @@ CHECKS = {
     },
     "C12": {
         "pkg": "c12", "race": True,
+        # c12l: the NTP listener's use of the provider, real listener with a provider the harness ages (one process: fixed port)
+        "parts": [{"pkg": "c12"}, {"pkg": "c12l", "race": False, "shards": 1}],
         # a local time zone with daylight saving: calendar arithmetic in time.Local (AddDate) differs from durations
         "env": {"TZ": "Europe/Zurich"},
         "rule": "rapid-generated Current/Get/advance/burst sequences on the real provider under virtual time (synctest), race detector on.",
